@@ -12,16 +12,17 @@ case $pkg in components) pkgdir=$wt/components;; main) pkgdir=$wt/cmd/scipipe;; 
 cp $demo $pkgdir/zz_demo_test.go
 tests=$(grep -o 'func Test[A-Za-z0-9_]*' $demo | sed 's/func //' | paste -sd'|')
 cd $pkgdir
-go test -vet=off -count=1 -timeout 300s -run "^($tests)\$" . > /tmp/confirm_without.txt 2>&1; rc_without=$?
+go test -vet=off -count=1 -timeout 300s -run "^($tests)\$" . > /tmp/confirm_${id}_without.txt 2>&1; rc_without=$?
 git -C $wt apply $src/patch.diff || { echo "patch does not apply"; exit 2; }
 go build ./... || { echo "does not build"; exit 2; }
-go test -vet=off -count=1 -timeout 300s -run "^($tests)\$" . > /tmp/confirm_with.txt 2>&1; rc_with=$?
+go test -vet=off -count=1 -timeout 300s -run "^($tests)\$" . > /tmp/confirm_${id}_with.txt 2>&1; rc_with=$?
 rm -f $pkgdir/zz_demo_test.go; rm -rf $wt/_scipipe_tmp* $wt/components/_scipipe_tmp*
-cd $wt && go test -json -vet=off -count=1 -timeout 25m ./... 2>/dev/null > /tmp/confirm_suite.json
-missing=$(python3 - <<'PY'
+cd $wt && go test -json -vet=off -count=1 -timeout 25m ./... 2>/dev/null > /tmp/confirm_${id}_suite.json
+missing=$(CONFIRM_ID=$id python3 - <<'PY'
 import json
 passed=set()
-for l in open('/tmp/confirm_suite.json'):
+import os
+for l in open('/tmp/confirm_'+os.environ['CONFIRM_ID']+'_suite.json'):
     try: d=json.loads(l)
     except: continue
     if d.get('Action')=='pass' and d.get('Test'): passed.add(d['Package']+'::'+d['Test'])
@@ -35,5 +36,5 @@ if [ $rc_without -eq 0 ] && [ $rc_with -ne 0 ] && [ -z "$missing" ]; then
   mkdir -p /verif/seeded/$id; cp $src/patch.diff $demo /verif/seeded/$id/; [ -f $src/meta.json ] && cp $src/meta.json /verif/seeded/$id/agent_meta.json
   echo "CONFIRMED $id"
 else
-  echo "NOT CONFIRMED $id"; tail -5 /tmp/confirm_without.txt; tail -5 /tmp/confirm_with.txt
+  echo "NOT CONFIRMED $id"; tail -5 /tmp/confirm_${id}_without.txt; tail -5 /tmp/confirm_${id}_with.txt
 fi
